@@ -47,10 +47,18 @@ Init == /\ src \in [Pkgs -> {"okA", "bad", "noinj"}]
         /\ last = [cmd |-> "none", args |-> [pkgs |-> {}], exit |-> 0]
 
 \* record the command: always in last, and in hist while a history is being recorded
+\* any state at all: the replay constructs it directly on disk (sources + output files), so that short histories
+\* reach every combination of stale / damaged / fresh files and source variants
+InitAny == /\ src \in [Pkgs -> Variants]
+           /\ disk \in [Slot -> Contents]
+           /\ hist = <<>>
+           /\ last = [cmd |-> "none", args |-> [pkgs |-> {}], exit |-> 0]
+
 Rec(cmd, args, exit) ==
   /\ last' = [cmd |-> cmd, args |-> args, exit |-> exit]
   /\ hist' = IF MaxHist = 0 THEN hist
              ELSE Append(hist, [cmd |-> cmd, args |-> args, exit |-> exit, src0 |-> src,
+                                disk0 |-> [p \in Pkgs |-> [x \in Prefixes |-> disk[<<p, x>>]]],
                                 src |-> src', disk |-> [p \in Pkgs |-> [x \in Prefixes |-> disk'[<<p, x>>]]]])
 
 (* ---- user actions ---------------------------------------------------------- *)
